@@ -43,9 +43,11 @@ META = dict(
               'Onsager.C23.gPos_inv', 'Onsager.C23.pairState_g_sane', 'Onsager.C23.clusterSite_g_eq_gPos',
               'Onsager.C23.roundHE_spec', 'Onsager.C23.exists_int_inverse2', 'Onsager.C23.exists_int_inverse3'],
     tie_theorems=[],
-    rule='crystal zoo (SC, FCC, BCC, HCP, B2, diamond, NaCl, FCC+octahedral/tetrahedral interstitials, 2-D square/'
+    rule='crystal zoo (SC, FCC, BCC, HCP, B2, diamond, NaCl, L1_2, perovskite, cubic face centres, FCC/BCC/HCP + octahedral/'
+         'tetrahedral interstitials, kagome, honeycomb+centres, 2-D square/'
          'triangular/honeycomb/rectangular/oblique, monoclinic, triclinic) plus random rational lattices with random '
-         'rational bases; operations from crys.G, their products and inverses, and a malformed stream of non-symmetry '
+         'rational bases and high-symmetry lattices decorated with symmetry orbits of 3-12 equivalent sites (non-commuting site '
+         'permutations); operations from crys.G, products and inverses of arbitrary pairs of crys.G, and a malformed stream of non-symmetry '
          'operations; positions: all sites with random lattice vectors, unit coordinates with small denominators, '
          'random floats and boundary values 0, -1e-8+-d, 1-1e-8+-d, 1-1e-12. A case = one (crystal, operation(s), '
          'position, route); non-trivial = operation is not the identity or the position is not the origin; distinct by '
@@ -171,6 +173,30 @@ def zoo():
                                         [np.zeros(3), np.array([.25, .5, .125])])))
     out.append(('triclinic', lambda: C(np.array([[1., .25, .5], [0., 1.25, .25], [0., 0., 1.5]]),
                                        [[np.array([.125, .25, .5])], [np.array([.5, .75, .2]), np.array([.2, .4, .6])]])))
+    # several equivalent sites per species, permuted non-commutatively
+    fc = [np.array([0., .5, .5]), np.array([.5, 0., .5]), np.array([.5, .5, 0.])]
+    out.append(('L12', lambda: C(a * np.eye(3), [[np.zeros(3)], fc])))
+    out.append(('perovskite', lambda: C(a * np.eye(3), [[np.zeros(3)], [np.array([.5, .5, .5])], fc])))
+    out.append(('SC-facecentres', lambda: C(a * np.eye(3), fc)))
+
+    def bcc_int(u):
+        def mk():
+            bcc = C.BCC(a)
+            return bcc.addbasis(bcc.Wyckoffpos(np.array(u)))
+        return mk
+    out.append(('BCC+oct', bcc_int([.5, .5, 0.])))
+    out.append(('BCC+tet', bcc_int([.5, .25, .75])))
+
+    def hcp_tet():
+        hcp = C.HCP(a)
+        return hcp.addbasis(hcp.Wyckoffpos(np.array([1. / 3, 2. / 3, 5. / 8])))
+    out.append(('HCP+tet', hcp_tet))
+    tri = a * np.array([[1., .5], [0., math.sqrt(.75)]])
+    out.append(('kagome2D', lambda: C(tri, [np.array([.5, 0.]), np.array([0., .5]), np.array([.5, .5])])))
+    out.append(('honeycomb+centre2D', lambda: C(tri, [[np.array([1. / 3, 1. / 3]), np.array([2. / 3, 2. / 3])],
+                                                        [np.array([.5, 0.]), np.array([0., .5]), np.array([.5, .5])]])))
+    out.append(('square2D-4sites', lambda: C(a * np.eye(2), [np.array([.25, 0.]), np.array([.75, 0.]),
+                                                              np.array([0., .25]), np.array([0., .75])])))
     out.append(('rhombohedral', lambda: C(np.array([[1., .25, .25], [.25, 1., .25], [.25, .25, 1.]]), [np.zeros(3)])))
     return out
 
@@ -199,6 +225,29 @@ def random_crystal(rng, dim):
         if sites: basis.append(sites)
     name = 'rand%dD:%s/%s' % (dim, mtxt(L), '|'.join(';'.join(vtxt([snap(x, 12) for x in u]) for u in s) for s in basis))
     return name, (lambda: crystal.Crystal(Lf, basis))
+
+
+def orbit_crystal(rng):
+    """a high-symmetry lattice decorated with a full symmetry orbit of a special position: several equivalent sites
+    whose permutations by the group generally do not commute"""
+    from onsager import crystal
+    C = crystal.Crystal
+    tri = np.array([[1., .5], [0., math.sqrt(.75)]])
+    bases = [('SC', lambda: C(np.eye(3), [np.zeros(3)]), 3), ('FCC', lambda: C.FCC(1.), 3), ('BCC', lambda: C.BCC(1.), 3),
+             ('HCP', lambda: C.HCP(1.), 3), ('sq2D', lambda: C(np.eye(2), [np.zeros(2)]), 2),
+             ('tri2D', lambda: C(tri, [np.zeros(2)]), 2), ('tetragonal', lambda: C(np.diag([1., 1., 1.5]), [np.zeros(3)]), 3)]
+    bname, mk, d = rng.choice(bases)
+    for _ in range(50):
+        x = Fr(rng.randrange(1, 8), 8) if rng.random() < .6 else Fr(rng.randrange(1, 6), 6)
+        pat = rng.choice([(x, 0, 0), (x, x, 0), (Fr(1, 2), x, 0), (x, x, x), (Fr(1, 2), Fr(1, 2), x), (x, Fr(1, 2), 0), (x, 2 * x, Fr(1, 4))])
+        u = np.array([float(t) for t in pat[:d]])
+        base = mk()
+        orb = base.Wyckoffpos(u)
+        close_to_host = any(np.allclose(crystal.inhalf(w - b), 0, atol=1e-6) for w in orb for l in base.basis for b in l)
+        if 3 <= len(orb) <= 12 and not close_to_host:
+            name = 'orbit:%s+%s(%d sites)' % (bname, vtxt([snap(t, 24) for t in u]), len(orb))
+            return name, (lambda base=base, orb=orb: base.addbasis(orb))
+    return 'orbit:SC-facecentres', (lambda: C(np.eye(3), [np.array([0., .5, .5]), np.array([.5, 0., .5]), np.array([.5, .5, 0.])]))
 
 
 class Exact:
@@ -548,9 +597,15 @@ def build_session(ctx, name, ex, rng, nops, npos, malformed):
             if not close(crys.g_tensor(g, np.outer(x, y)), np.outer(crys.g_direc(g, x), crys.g_direc(g, y))):
                 S.viol('route:g_tensor-vs-g_direc', 'g_tensor(x⊗y) != g_direc(x)⊗g_direc(y)', g=opdict(g), x=x, y=y)
     # ---------------- composition / inversion
-    npairs = max(2, nops)
+    multi = max(len(l) for l in crys.basis) >= 3     # several equivalent sites: permutations may not commute
+    npairs = max(2, nops) * (3 if multi and not malformed else 1)
+    Gset = None if malformed else set(G)
     for _ in range(npairs):
-        ka, kb = rng.choice(slots), rng.choice(slots)
+        if malformed:
+            ka, kb = rng.choice(slots), rng.choice(slots)
+        else:
+            # any two operations of the group (not only the sampled ones)
+            ka, kb = S.slot(rng.choice(G)), S.slot(rng.choice(G))
         ga, gb = S.ops[ka], S.ops[kb]
         gab = ga * gb
         kc = len(S.ops); S.ops.append(gab)
@@ -561,18 +616,64 @@ def build_session(ctx, name, ex, rng, nops, npos, malformed):
         S.add('inv %d %d' % (ka, ki), (_op_check(ex, gi, cart=ex.metric_ok), opdict(gi)))
         ctx.count('mul'); ctx.count('inv')
         if malformed: continue
+        commute = all(tuple(a[i] for i in b) == tuple(b[i] for i in a) for a, b in zip(ga.indexmap, gb.indexmap))
+        ctx.count('mul-sitemaps-commute' if commute else 'mul-sitemaps-noncommuting')
         # oracles on the implementation: action of the product = composition; inverse undoes
-        for ci in sites[:4]:
+        # closure: the product / inverse of crystal operations is a crystal operation
+        if gab.inhalf() not in Gset and not any(gab - np.round(gab.trans - h.trans).astype(int) == h for h in G
+                                                if np.array_equal(h.rot, gab.rot)):
+            S.viol('group:product-not-in-G', 'g*h is not (up to a lattice translation) an element of crys.G',
+                   g=opdict(ga), h=opdict(gb), product=opdict(gab))
+        if not any(gi - np.round(gi.trans - h.trans).astype(int) == h for h in G if np.array_equal(h.rot, gi.rot)):
+            S.viol('group:inverse-not-in-G', 'g.inv() is not (up to a lattice translation) an element of crys.G',
+                   g=opdict(ga), ginv=opdict(gi))
+        for ci in sites:
             R = rand_R(rng, d); Ra = np.array(R, dtype=int)
             p = crys.g_pos(gb, Ra, ci); q = crys.g_pos(ga, p[0], p[1]); r = crys.g_pos(gab, Ra, ci)
             if not (np.array_equal(q[0], r[0]) and q[1] == r[1]):
                 S.viol('group:mul-not-composition:g_pos', 'g_pos(g*h) != g_pos(g) o g_pos(h)', g=opdict(ga), h=opdict(gb), R=R, ci=ci,
                        composed=[q[0], q[1]], product=[r[0], r[1]])
+            # the product's index map against the geometric action g_cart(g, g_cart(h, x))
+            xx = crys.g_cart(ga, crys.g_cart(gb, crys.pos2cart(Ra, ci)))
+            Rg, cig = crys.cart2pos(xx)
+            if cig != r[1] or not np.array_equal(Rg, r[0]) or not close(crys.pos2cart(r[0], r[1]), xx):
+                S.viol('group:mul-not-composition:g_pos-vs-geometry', 'g_pos(g*h, R, ci) is not the site at g_cart(g, g_cart(h, x))',
+                       g=opdict(ga), h=opdict(gb), R=R, ci=ci, geometric=[Rg, cig], product=[r[0], r[1]])
             p = crys.g_pos(ga, Ra, ci); q = crys.g_pos(gi, p[0], p[1])
             if not (np.array_equal(q[0], Ra) and q[1] == ci):
                 S.viol('group:inv-not-inverse:g_pos', 'g_pos(g.inv()) o g_pos(g) != id', g=opdict(ga), R=R, ci=ci, back=[q[0], q[1]])
+            xi = crys.g_cart(gi, crys.pos2cart(Ra, ci))
+            q = crys.g_pos(gi, Ra, ci)
+            if not close(crys.pos2cart(q[0], q[1]), xi):
+                S.viol('group:inv-not-inverse:g_pos-vs-geometry', 'g_pos(g.inv(), R, ci) is not the site at g_cart(g.inv(), x)',
+                       g=opdict(ga), R=R, ci=ci, got=[q[0], q[1]])
+            # cluster sites and pair states under the product
+            cs0 = cluster.ClusterSite(ci=ci, R=Ra)
+            l, rr = cs0.g(crys, gab), cs0.g(crys, gb).g(crys, ga)
+            if not l == rr:
+                S.viol('group:mul-not-composition:ClusterSite.g', 'ClusterSite.g(g*h) != ClusterSite.g(g) o ClusterSite.g(h)',
+                       g=opdict(ga), h=opdict(gb), R=R, ci=ci, product=[l.ci, l.R], composed=[rr.ci, rr.R])
+            if not cs0.g(crys, ga).g(crys, gi) == cs0:
+                S.viol('group:inv-not-inverse:ClusterSite.g', 'ClusterSite.g(g.inv()) o ClusterSite.g(g) != id', g=opdict(ga), R=R, ci=ci)
+            j = rng.randrange(len(crys.basis[ci[0]]))
+            ps = crystalStars.PairState.fromcrys_latt(crys, ci[0], (ci[1], j), Ra)
+            l, rr = ps.g(crys, ci[0], gab), ps.g(crys, ci[0], gb).g(crys, ci[0], ga)
+            if not (l == rr and close(l.dx, rr.dx)):
+                S.viol('group:mul-not-composition:PairState.g', 'PairState.g(g*h) != PairState.g(g) o PairState.g(h)',
+                       g=opdict(ga), h=opdict(gb), chem=ci[0], i=ci[1], j=j, R=R,
+                       product=[l.i, l.j, l.R, l.dx], composed=[rr.i, rr.j, rr.R, rr.dx])
+            back = ps.g(crys, ci[0], ga).g(crys, ci[0], gi)
+            if not (back == ps and close(back.dx, ps.dx)):
+                S.viol('group:inv-not-inverse:PairState.g', 'PairState.g(g.inv()) o PairState.g(g) != id', g=opdict(ga), chem=ci[0], i=ci[1], j=j, R=R)
             kq = 'gpos %d %s %d %d' % (kc, itxt(R), ci[0], ci[1])
             S.add(kq, ((lambda ans, exp='%s %d %d' % (itxt(r[0]), r[1][0], r[1][1]): ans == exp), [r[0].tolist(), r[1]]))
+        # (a) the index maps themselves
+        comp = tuple(tuple(la[i] for i in lb) for la, lb in zip(ga.indexmap, gb.indexmap))
+        if gab.indexmap != comp:
+            S.viol('group:mul-not-composition:indexmap', '(g*h).indexmap[c][i] != g.indexmap[c][h.indexmap[c][i]]',
+                   g=opdict(ga), h=opdict(gb), product=opdict(gab), composed=[list(l) for l in comp])
+        if any(gi.indexmap[c][ga.indexmap[c][i]] != i for c, l in enumerate(ga.indexmap) for i in range(len(l))):
+            S.viol('group:inv-not-inverse:indexmap', 'g.inv().indexmap does not invert g.indexmap', g=opdict(ga), ginv=opdict(gi))
         for t in range(2):
             R = rand_R(rng, d); Ra = np.array(R, dtype=int)
             u = unit_coords(rng, d, boundary=False); ua = fl(u)
@@ -653,7 +754,7 @@ def make_crystals(ctx, nrand):
     for name, mk in zoo():
         out.append((name, mk))
     for t in range(nrand):
-        out.append(random_crystal(rng, 3 if t % 3 else 2))
+        out.append(orbit_crystal(rng) if t % 3 == 1 else random_crystal(rng, 3 if t % 3 else 2))
     res = []
     for name, mk in out:
         try:
